@@ -143,7 +143,7 @@ Theorem C11_float_validate_total : forall v,
   | Ok f => BaseFloatType__validate v = Ok PNone /\ py_float v = Ok (PFloat f) /\ f_is_finite f = true
   | Err e => BaseFloatType__validate v = Err e /\ (e = TypeErr \/ e = ValueErr)
   end.
-Proof. exact fvalidate_spec. Qed.
+Proof. exact BaseFloatType_validate_spec. Qed.
 Print Assumptions C11_float_validate_total.
 
 (** W for the float- and unit-valued classes, per ATTRIBUTE ROW: the class-level range theorems
